@@ -257,6 +257,87 @@ func c11R4(c *Ctx) {
 			c.check(domI(ci[0].(ssa.Instruction), s.(ssa.Instruction)), name+"/drain-first", c.ipos(s), "input is drained before the fail line is written", "fail line written before draining input")
 		}
 	}
+	// "a side that can still talk tells its peer" — and only such a side: when the error IS the peer's exit / fail message
+	// the peer has already left the protocol, and a fail line written now lands on the remote shell's command line.
+	// Truth table on the two classification calls (the condition is a disjunction).
+	isCall := func(id string) func(ssa.Value) bool {
+		return func(v ssa.Value) bool { call, _ := callOf(v); return call != nil && calleeID(&call.Call) == id }
+	}
+	rx, rf := isCall("(*trzsz.trzszError).isRemoteExit"), isCall("(*trzsz.trzszError).isRemoteFail")
+	okT := func(v ssa.Value) bool { e, isE := v.(*ssa.Extract); return isE && e.Index == 1 && func() bool { _, ta := e.Tuple.(*ssa.TypeAssert); return ta }() }
+	for _, name := range []string{"trzszTransfer.clientError", "trzszTransfer.serverError"} {
+		f := c.fn(name)
+		sends := callsIn(f, idIs(tT+"sendString"))
+		if len(sends) == 0 {
+			c.bad(name+"/tells-peer", c.pos(f.Pos()), "the reporter never tells the peer")
+			continue
+		}
+		for _, w := range []struct {
+			nm   string
+			as   []assumption
+			tell bool
+		}{
+			{"peer-exited", []assumption{{pred: okT, val: true}, {pred: rx, val: true}}, false},
+			{"peer-failed", []assumption{{pred: okT, val: true}, {pred: rx, val: false}, {pred: rf, val: true}}, false},
+			{"local-error", []assumption{{pred: okT, val: true}, {pred: rx, val: false}, {pred: rf, val: false}}, true},
+			{"foreign-error-type", []assumption{{pred: okT, val: false}}, true},
+		} {
+			reach := blocksUnder(f, w.as)
+			any := false
+			for _, s := range sends {
+				if reach[s.Block()] {
+					any = true
+				}
+			}
+			c.check(any == w.tell, name+"/tells-peer@"+w.nm, c.pos(f.Pos()), "the peer is told about an error exactly when it is still in the protocol (not when the error is its own exit / fail message)", "for '"+w.nm+"' the reporter "+map[bool]string{true: "writes a fail line to a peer that already left (it lands on the remote shell)", false: "does not tell the peer why the transfer failed"}[any])
+		}
+	}
+	// the two classifiers answer for exactly the types the ends send: EXIT -> remote exit; fail, FAIL -> remote fail
+	typeIs := func(want string, val bool) assumption {
+		return assumption{val: val, cmp: func(op token.Token, x, y ssa.Value) (bool, bool) {
+			s, isS := constString(strip(y))
+			if (op != token.EQL && op != token.NEQ) || !isFieldLoad("errType")(x) || !isS || s != want {
+				return false, false
+			}
+			return true, op == token.EQL
+		}}
+	}
+	all := []string{"EXIT", "fail", "FAIL"}
+	for _, cl := range []struct {
+		fn   string
+		yes  map[string]bool
+	}{{"trzszError.isRemoteExit", map[string]bool{"EXIT": true}}, {"trzszError.isRemoteFail", map[string]bool{"fail": true, "FAIL": true}}} {
+		f := c.fn(cl.fn)
+		for _, actual := range append(append([]string{}, all...), "other") {
+			var as []assumption
+			for _, t := range all {
+				as = append(as, typeIs(t, t == actual))
+			}
+			reach := blocksUnder(f, as)
+			good, n := true, 0
+			eachInstr(f, func(in ssa.Instruction) {
+				r, ok := in.(*ssa.Return)
+				if !ok || !reach[r.Block()] {
+					return
+				}
+				n++
+				v := r.Results[0]
+				b, known := evalBoolUnder(v, as, reach, 0)
+				if !known {
+					// a bare comparison as result
+					if op, x, y, okc := cmpFact(fact{V: v, Pol: true}); okc && (op == token.EQL || op == token.NEQ) && isFieldLoad("errType")(x) {
+						if s, isS := constString(strip(y)); isS {
+							b, known = (s == actual) == (op == token.EQL), true
+						}
+					}
+				}
+				if !known || b != cl.yes[actual] {
+					good = false
+				}
+			})
+			c.check(good && n > 0, shortID(cl.fn)+"@"+actual, c.pos(f.Pos()), "the classifier answers correctly for this message type", "the classifier gives the wrong answer for message type '"+actual+"' (a peer's own fail/exit message is then answered with another fail line, or a local error is not reported)")
+		}
+	}
 	// the fail line is written after cleanInput latched 'stopped': nothing on the reporter's write path may be gated by the stop flag
 	stopGates := map[string]bool{"trzszTransfer.checkStop": true, "trzszTransfer.checkStopAndPause": true}
 	for _, name := range []string{"trzszTransfer.sendString", "trzszTransfer.sendLine", "trzszTransfer.writeAll", "trzszTransfer.sendInteger", "trzszTransfer.sendBinary"} {
